@@ -293,6 +293,20 @@ def check_console(t, viol, obs):
     for k in exp:
         pr = " ".join(d[k].split())
         ex = " ".join(exp[k].split())
+        if k == "point":
+            # the point is compared as numbers (8 significant digits are what the shipped report prints), not as a string
+            nums = []
+            for tok in re.findall(r"[-+]?(?:\d+\.\d*|\.\d+|\d+)(?:[eE][-+]?\d+)?|[-+]?inf|nan", d[k]):
+                try:
+                    nums.append(float(tok))
+                except ValueError:
+                    pass
+            act = [float(v) for v in sn["y"]] if sn["y"] is not None else []
+            ok = len(nums) == len(act) and all(abs(a - b) <= 1e-7 * abs(b) or (a != a and b != b) for a, b in zip(nums, act))
+            obs["console_points_compared_numerically"] = obs.get("console_points_compared_numerically", 0) + 1
+            if not ok:
+                viol.append({"mech": "console-report-wrong", "field": k, "printed": d[k], "solution": exp[k]})
+            continue
         if pr != ex:
             viol.append({"mech": "console-report-wrong", "field": k, "printed": d[k], "solution": exp[k]})
 
@@ -307,6 +321,17 @@ def run_case(c):
     if c["kind"] in ("console", "reuse") and c["idx"] % 3 == 0:
         scaled = ["big", "small", "offset", "int", "big"][(c["idx"] // 3) % 5]
     scn = base_scn(rng, N, iters, refine=c["refine"], hostile=bool(c.get("hostile")), scaled=scaled)
+    tinybox = False
+    if c["kind"] in ("console", "reuse") and c["idx"] % 4 == 1:
+        # a box of tiny coordinates (nanometres written in metres), sometimes with one ordinary side: what the console listener has to print
+        lo_t = rng.uniform(0.0, 5e-9, N) * rng.choice([1.0, -1.0], N)
+        side_t = 10 ** rng.uniform(-9.5, -8, N)
+        if N > 1 and rng.random() < 0.5:
+            k_ = int(rng.integers(N))
+            lo_t[k_], side_t[k_] = 0.0, 1.0
+        scn["lower"], scn["upper"], scn["box"] = [float(v) for v in lo_t], [float(a + b) for a, b in zip(lo_t, side_t)], "tiny-coordinates"
+        scn.pop("start_point", None)
+        tinybox = True
     if c.get("kw", {}).get("mode") == "interpolation" and N > 1:
         # a cubic interpolant needs at least 4 distinct abscissae: keep the section grid fine enough
         scn["m"] = max(scn["m"], 7)
@@ -327,6 +352,10 @@ def run_case(c):
     obs = {"runs": 1}
     if zero_batches:
         obs["runs_with_empty_batches"] = 1
+    if tinybox:
+        obs["console_runs_on_boxes_of_tiny_coordinates"] = 1
+    if scn.get("start_point"):
+        obs["runs_with_a_start_point"] = 1
     if scaled:
         obs["console_runs_with_extreme_values_" + scaled] = 1
     base = record.run_solver(scn, listener=False)
